@@ -828,6 +828,34 @@ def _lossy_stores(model, rep):
                          f"truncated, complex values into a real vector "
                          f"lose their imaginary part) and the result no "
                          f"longer satisfies the equations", node.lineno)
+    from ..dtypeflow import quotient_store_sites
+    nq = 0
+    for name in dict.fromkeys(BC_FUNCS):
+        try:
+            fn = model.func(U, name)
+        except AnalysisError:
+            continue
+        for buf, own, d, node, floating in quotient_store_sites(
+                fn.node, fn.params()):
+            nq += 1
+            cons = f"{name}:{buf}:holds-quotients"
+            if floating:
+                rep.ok(R5, cons, f"'{buf}' is allocated in a floating common "
+                                 f"type before '{src(node)[:40]}'")
+            else:
+                rep.fail(R5, F, name, cons,
+                         f"'{src(node)[:50]}' stores a quotient - a floating "
+                         f"value whatever the operands are - into '{buf}', "
+                         f"which '{src(d)[:60]}' gives a common type of its "
+                         f"operands only: integer prescribed values and an "
+                         f"integer (or omitted) right-hand side make it an "
+                         f"integer array and the penalised entries are "
+                         f"truncated or overflow", node.lineno)
+    if nq < 1:
+        raise AnalysisError("no store of a quotient into an operand copy "
+                            "found in the boundary condition helpers "
+                            "(penalize: bout[D] = x[D] / epsilon confirmed "
+                            "by hand)")
     if nstores < 4:
         raise AnalysisError(f"only {nstores} stores of foreign values into "
                             f"operand copies found in the boundary "
@@ -989,6 +1017,71 @@ def _storage_format(model, rep):
     if n < 1:
         raise AnalysisError("no raw CSR access found in the boundary "
                             "condition helpers (enforce: confirmed by hand)")
+    # format-specific flags: .has_canonical_format / .has_sorted_indices
+    # exist for the compressed and COO formats only; LIL, DOK and DIA
+    # matrices - which condense and penalize hand on in the format they were
+    # given - raise AttributeError.  Every direct read in utils.py (nested
+    # solver closures included) needs a conversion in the definition chain;
+    # getattr(X, flag, default) is the accepted idiom for "any format".
+    nflag = 0
+    mod = model.module(U)
+    qual = {}
+
+    def name_all(node, prefix):
+        for ch in ast.iter_child_nodes(node):
+            if isinstance(ch, (ast.FunctionDef, ast.AsyncFunctionDef,
+                               ast.ClassDef)):
+                qual[id(ch)] = prefix + ch.name
+                name_all(ch, prefix + ch.name + ".")
+            else:
+                name_all(ch, prefix)
+    name_all(mod.tree, "")
+    for fnode in ast.walk(mod.tree):
+        if not isinstance(fnode, (ast.FunctionDef, ast.AsyncFunctionDef)):
+            continue
+        qn = qual[id(fnode)]
+        defs = {}
+        for x in walk_no_nested(fnode):
+            if isinstance(x, ast.Assign):
+                for t in x.targets:
+                    if isinstance(t, ast.Name):
+                        defs.setdefault(t.id, []).append(x)
+        for x in walk_no_nested(fnode):
+            if isinstance(x, ast.Call) and src(x.func) == "getattr" and \
+                    len(x.args) == 3 and isinstance(
+                        x.args[1], ast.Constant) and x.args[1].value in (
+                        "has_canonical_format", "has_sorted_indices"):
+                nflag += 1
+                rep.ok(R3, f"{qn}:{src(x.args[0])}."
+                       f"{x.args[1].value}:any-format",
+                       "flag read with a default for formats without it")
+                continue
+            if not (isinstance(x, ast.Attribute) and x.attr in (
+                    "has_canonical_format", "has_sorted_indices")
+                    and isinstance(x.value, ast.Name)
+                    and isinstance(x.ctx, ast.Load)):
+                continue
+            nflag += 1
+            nm = x.value.id
+            conv = any(isinstance(c, ast.Call) and isinstance(
+                c.func, ast.Attribute) and c.func.attr in (
+                "tocsr", "tocsc", "tocoo", "tobsr")
+                for d in defs.get(nm, []) if d.lineno <= x.lineno
+                for c in ast.walk(d.value))
+            cons = f"{qn}:{nm}.{x.attr}:any-format"
+            if conv:
+                rep.ok(R3, cons, "read after a conversion to a compressed "
+                       "format")
+            else:
+                rep.fail(R3, F, qn, cons,
+                         f"'{nm}.{x.attr}' is read from a matrix in whatever "
+                         f"format it came: LIL, DOK and DIA matrices (which "
+                         f"condense and penalize return as given) have no "
+                         f"such attribute and the call raises "
+                         f"AttributeError where it used to solve", x.lineno)
+    if nflag < 3:
+        raise AnalysisError(f"only {nflag} reads of the canonical-format "
+                            f"flag found in utils.py, 4 confirmed by hand")
 
 
 def _data_denominators(model, rep):
@@ -1280,6 +1373,13 @@ MUTANTS = [
      (_U, "            bout = b if overwrite else b.astype(np.result_type("
       "b, x))", "            bout = b if overwrite else b.copy()"),
      "C05-R5"),
+    ("penalize promotes the right-hand side with its operands only",
+     (_U, "b.astype(np.result_type(b, x, np.float32))\n    bout[D] = x[D] / "
+      "epsilon", "b.astype(np.result_type(b, x))\n    bout[D] = x[D] / "
+      "epsilon"), "C05-R5"),
+    ("direct solver reads the canonical-format flag of any format",
+     (_U, "        if not getattr(A, 'has_canonical_format', True):",
+      "        if not A.has_canonical_format:"), "C05-R3"),
     ("constrained index arrays are used as given again",
      (_U, "        D = np.unique(D)  # an index listed twice is constrained "
       "once\n", ""), "C05-R2"),
@@ -1312,10 +1412,10 @@ MUTANTS = [
       "b, x))\n            bout[D] = x[D]",
       "            bout = b\n            bout[D] = x[D]"), "C05-R1"),
     ("penalize: overwrite test inverted",
-     (_U, "    bout = b if overwrite else b.astype(np.result_type(b, x))\n"
-      "    bout[D] = x[D] / epsilon",
-      "    bout = b.astype(np.result_type(b, x)) if overwrite else b\n"
-      "    bout[D] = x[D] / epsilon"), "C05-R1"),
+     (_U, "    bout = b if overwrite else b.astype(np.result_type(b, x, "
+      "np.float32))\n    bout[D] = x[D] / epsilon",
+      "    bout = b.astype(np.result_type(b, x, np.float32)) if overwrite "
+      "else b\n    bout[D] = x[D] / epsilon"), "C05-R1"),
     ("solve_linear expands into the caller's x",
      (_U, "        y = x.astype(np.result_type(x, sol))\n",
       "        y = x.astype(np.result_type(x, sol), copy=False)\n"),
@@ -1370,6 +1470,15 @@ MUTANTS = [
       "\n"), None),
 ]
 TWINS = [
+    ("direct solver converts before reading the flag",
+     (_U, "        if not getattr(A, 'has_canonical_format', True):",
+      "        A = A.tocsc()\n        if not A.has_canonical_format:")),
+    ("penalize promotes with float64",
+     (_U, "np.result_type(b, x, np.float32))\n    bout[D]",
+      "np.result_type(b, x, np.float64))\n    bout[D]")),
+    ("penalize multiplies by the reciprocal of epsilon",
+     (_U, "    bout[D] = x[D] / epsilon", "    bout[D] = x[D] * (1. / "
+      "epsilon)")),
     ("enforce: non-CSR input converted with the constructor",
      (_U, "        Aout = A.tocsr()\n", "        Aout = sp.csr_matrix(A)\n")),
     ("penalize: default scale from the largest absolute diagonal",
